@@ -85,19 +85,19 @@ type Sched struct {
 	timers   []*vtimer
 	tseq     int
 
-	prefix    []int
-	Choices   []Choice
-	Steps     int
-	Trace     []string
-	KeepTrace bool
-	Panics    []string
-	MaxSteps  int
-	NoBranch  bool
-	RelPoints bool // pure releases are scheduling points too
-	hash      uint64
-	Diverged  string
+	prefix      []int
+	Choices     []Choice
+	Steps       int
+	Trace       []string
+	KeepTrace   bool
+	Panics      []string
+	MaxSteps    int
+	NoBranch    bool
+	RelPoints   bool // pure releases are scheduling points too
+	hash        uint64
+	Diverged    string
 	TimersFired int
-	objSeq    int
+	objSeq      int
 }
 
 // Choice is one recorded decision point (only points with more than one transition are recorded).
@@ -110,6 +110,11 @@ type Choice struct {
 
 // S is the active scheduler (nil = passthrough).
 var S *Sched
+
+// ShimOps counts synchronisation operations that reached the scheduler through the vsync shims, i.e. from
+// instrumented code (harness code uses the vrt API directly). Zero after a concurrent scenario means the
+// overlay was not applied and the exploration would be vacuous.
+var ShimOps int64
 
 // Active reports whether the calling code runs under the scheduler.
 func Active() bool { s := S; return s != nil && s.cur != nil }
